@@ -123,6 +123,11 @@ Theorem done_once_per_gather_at_rest : forall (limit : Z) (es : list ev), runnin
   m_dones (sem_run limit es) = m_gathers (sem_run limit es) /\ m_count (sem_run limit es) = 0.
 Proof. exact C11_proofs.quiescent_done_lemma. Qed.
 
+(* the per-event answers of the semaphore machine (let in / 503) pass the schedule specification used by the runner *)
+Theorem schedule_outcomes_satisfy_spec : forall (limit : Z) (es : list ev),
+  spec_sched limit [] es (sem_outcomes limit sem0 es) = true.
+Proof. exact C11_proofs.sched_spec_lemma. Qed.
+
 (* the hypotheses are satisfiable: concrete negotiations, policy rows and a schedule *)
 Example negotiation_examples :
   negotiate_ce (parse_accept (ex_hdr "gzip;q=0, *;q=0.5")) [s_gzip] = [] /\
